@@ -5,6 +5,8 @@ import (
 	"errors"
 	"fmt"
 	"io"
+	"os"
+	"path/filepath"
 	"strings"
 	"time"
 
@@ -299,6 +301,13 @@ func c17Levels(tier string) []core.Level {
 			}
 		}
 	}})
+	lv = append(lv, core.Level{Name: "filesystem loader: 9 names it cannot deliver (directories, empty name, missing files, a path below a file) x 8 ways to reach them (direct, include, extends, embed, import, use, from, include of a variable) x {Execute, ExecuteSafe}", Gen: func(emit func(core.Case)) {
+		for n := 0; n < 9; n++ {
+			for v := 0; v < 8; v++ {
+				emit(core.Case{Fam: "fs", N: []int{n, v}})
+			}
+		}
+	}})
 	if thorough(tier) {
 		lv = append(lv, core.Level{Name: "pairs: writer fails at k and loader fails at j", Gen: func(emit func(core.Case)) {
 			prep()
@@ -354,6 +363,65 @@ var c17ArgForms = []string{
 	"a{{ ERR .. 3 }}b",
 }
 
+// c17RunFS: names that the filesystem loader cannot deliver (directories, the empty name, missing files, a path
+// below a regular file), reached directly and through every tag that loads a template: Execute fails, what it wrote
+// is a prefix of nothing more than the text before the tag, ExecuteSafe writes nothing.
+func c17RunFS(c core.Case) core.Result {
+	dir := filepath.Join(core.WorkDir, "c17fs")
+	if core.WorkDir == "" {
+		dir, _ = os.MkdirTemp("", "c17fs")
+	}
+	os.MkdirAll(filepath.Join(dir, "sub"), 0o755)
+	os.WriteFile(filepath.Join(dir, "valid.twig"), []byte("V{% block a %}va{% endblock %}"), 0o644)
+	os.WriteFile(filepath.Join(dir, "sub", "in.twig"), []byte("IN"), 0o644)
+	bad := []string{"", ".", "sub", "sub/", "nosuch.twig", "sub/nosuch.twig", "valid.twig/x", "..", "sub/.."}[c.N[0]]
+	vias := []string{"direct", "pre{%% include '%s' %%}post", "{%% extends '%s' %%}{%% block a %%}x{%% endblock %%}", "pre{%% embed '%s' %%}{%% endembed %%}post",
+		"pre{%% import '%s' as m %%}post", "{%% extends 'valid.twig' %%}{%% use '%s' %%}", "pre{%% from '%s' import m %%}post", "pre{%% include nameVar %%}post"}
+	via := vias[c.N[1]]
+	entry := bad
+	if via != "direct" {
+		entry = "main.twig"
+		src := via
+		if strings.Contains(via, "%s") {
+			src = fmt.Sprintf(via, bad)
+		}
+		os.WriteFile(filepath.Join(dir, entry), []byte(src), 0o644)
+	}
+	for _, safe := range []bool{false, true} {
+		env := stick.New(stick.NewFilesystemLoader(dir))
+		w := &faultWriter{}
+		var err error
+		pan := ""
+		func() {
+			defer func() {
+				if p := recover(); p != nil {
+					pan = panicInfo(p)
+				}
+			}()
+			ctx := map[string]stick.Value{"nameVar": bad}
+			if safe {
+				err = env.ExecuteSafe(entry, w, ctx)
+			} else {
+				err = env.Execute(entry, w, ctx)
+			}
+		}()
+		desc := fmt.Sprintf("filesystem loader, name %q reached via %q (safe=%v)", bad, via, safe)
+		if pan != "" {
+			return core.Violation("panic", desc+" panicked: "+pan)
+		}
+		if err == nil {
+			return core.Violation("error-swallowed", fmt.Sprintf("%s: the template cannot be loaded but nil was returned; written: %q", desc, w.accepted.String()))
+		}
+		if got := w.accepted.String(); got != "" && got != "pre" {
+			return core.Violation("not-a-prefix", fmt.Sprintf("%s: wrote %q", desc, got))
+		}
+		if safe && w.calls != 0 {
+			return core.Violation("safe-wrote-on-failure", fmt.Sprintf("%s: ExecuteSafe wrote %q", desc, w.chunks))
+		}
+	}
+	return core.Okay(true, "err")
+}
+
 func c17RunArg(c core.Case) core.Result {
 	form := c17ArgForms[c.N[0]]
 	errExpr := []string{"nofunc()", "(1 % 0)", "(a|nofilter)"}[c.N[1]]
@@ -395,6 +463,9 @@ var c17MarkForm = "{{ mark() }}"
 func c17Run(c core.Case) core.Result {
 	if c.Fam == "rtarg" {
 		return c17RunArg(c)
+	}
+	if c.Fam == "fs" {
+		return c17RunFS(c)
 	}
 	ref := c17Exec(c.Src, false, 0, 0, 0)
 	if ref.pan != "" {
